@@ -1,6 +1,7 @@
 package main
 
 import (
+	"encoding/json"
 	"fmt"
 	"os"
 )
@@ -45,12 +46,43 @@ func main() {
 				code = r.Finish()
 			}
 		}()
+		replayKey := ""
 		for i := 3; i+1 < len(os.Args); i++ {
 			if os.Args[i] == "--replay" {
-				os.Setenv("VERIF_REPLAY", os.Args[i+1])
+				// a replay file names the violated key, the tier and the seed: the check regenerates its
+				// inputs deterministically from them, runs the real code again, and reports that key only
+				var rp struct {
+					Key  string `json:"key"`
+					Seed int64  `json:"seed"`
+					Tier string `json:"tier"`
+				}
+				b, err := os.ReadFile(os.Args[i+1])
+				if err != nil || json.Unmarshal(b, &rp) != nil || rp.Key == "" {
+					fmt.Fprintln(os.Stderr, "unreadable replay file", os.Args[i+1])
+					code = 2
+					return
+				}
+				replayKey = rp.Key
+				e.Seed = rp.Seed
+				if rp.Tier == "quick" || rp.Tier == "thorough" {
+					e.Tier = rp.Tier
+				}
 			}
 		}
 		fn(e, r)
+		if replayKey != "" {
+			kept := []Violation{}
+			for _, v := range r.Viol {
+				if v.Key == replayKey {
+					kept = append(kept, v)
+				}
+			}
+			r.Viol = kept
+			r.NoEvidence = true
+			if len(kept) == 0 && r.Fatal == "" {
+				fmt.Printf("REPLAY property=%s key=%s not reproduced on the current tree\n", id, replayKey)
+			}
+		}
 		code = r.Finish()
 	}()
 	os.Exit(code)
